@@ -428,6 +428,10 @@ fn universal(t: &mut Tape, ctx: &mut Ctx, maxlen: usize, maxcod: usize) -> Check
     Ok(())
 }
 
+fn la_clone(l: &SemifiniteFunction<sv::K, Ob>) -> SemifiniteArrow<sv::K, Ob> {
+    l.clone().into()
+}
+
 fn semifinite(t: &mut Tape, ctx: &mut Ctx, maxlen: usize, maxcod: usize) -> CheckResult {
     ctx.class("group:semifinite");
     let b = t.range(0, maxcod);
@@ -465,6 +469,21 @@ fn semifinite(t: &mut Tape, ctx: &mut Ctx, maxlen: usize, maxcod: usize) -> Chec
         }
         None => ensure!(ctx, g.len() != b, "semifinite-arrow", "Finite;Finite undefined although composable"),
         _ => return Err(ctx.fail("semifinite-arrow", "Finite;Finite returned a non-finite arrow")),
+    }
+    {
+        use open_hypergraphs::semifinite::SemifiniteObject;
+        ensure!(ctx, fa.source() == SemifiniteObject::Finite(f.len()) && fa.target() == SemifiniteObject::Finite(b), "semifinite-arrow", "source/target of a finite arrow");
+        ensure!(ctx, la.source() == SemifiniteObject::Finite(ln) && matches!(la.target(), SemifiniteObject::Set(_)), "semifinite-arrow", "source/target of a semifinite arrow");
+        match <SemifiniteArrow<sv::K, Ob> as Arrow>::identity(SemifiniteObject::Finite(b)) {
+            SemifiniteArrow::Finite(i) => ensure!(ctx, i == FF::identity(b), "semifinite-arrow", "identity on a finite object"),
+            _ => return Err(ctx.fail("semifinite-arrow", "identity on a finite object is not finite")),
+        }
+        let back: Result<SemifiniteFunction<sv::K, Ob>, ()> = SemifiniteFunction::try_from(la_clone(&l));
+        ensure!(ctx, back.map(|x| x.0 .0) == Ok(l.0 .0.clone()), "semifinite-arrow", "TryFrom<SemifiniteArrow> loses the label array");
+        let bad: Result<SemifiniteFunction<sv::K, Ob>, ()> = SemifiniteFunction::try_from(SemifiniteArrow::<sv::K, Ob>::Finite(ff_.clone()));
+        ensure!(ctx, bad.is_err(), "semifinite-arrow", "TryFrom accepts a finite arrow");
+        use num_traits::Zero;
+        ensure!(ctx, l.is_zero() == labels.is_empty() && SemifiniteFunction::<sv::K, Ob>::zero().is_zero(), "semifinite-arrow", "is_zero / zero");
     }
     // a semifinite arrow on the left never composes
     ensure!(ctx, la.compose(&fa).is_none(), "semifinite-arrow", "Semifinite;Finite is defined");
